@@ -843,8 +843,11 @@ fn json_steps(g: &mut Gen) -> Vec<Value> {
     1 => (0..g.rng.gen_range(1..3)).map(|_| bytes_json(b"")).collect(),
     _ => strs(g),
   };
-  let m = json!({"m": ustr(g), "sources": strs(g), "contents": contents, "names": strs(g),
-                 "root": opt(g), "file": opt(g), "dbg": opt(g)});
+  let mut m = json!({"m": ustr(g), "sources": strs(g), "contents": contents, "names": strs(g),
+                     "root": opt(g), "file": opt(g), "dbg": opt(g)});
+  if g.rng.gen_bool(0.4) {
+    m["via"] = json!("setters");
+  }
   let mut steps = vec![json!({"op": "to_json", "map": m})];
   // a document: random subset of keys in random order, null entries
   let entries = |g: &mut Gen| -> Vec<Value> {
